@@ -35,4 +35,5 @@ def jobs(tier, seed):
     if tier == "quick":  # ex0 combinations run in C01/C09
         sq = [j for j in sq if "_ex0_" not in j["name"]]
     J += sq
+    J += mjobs.close_jobs(tier)
     return J
